@@ -14,3 +14,4 @@ if exe is None:
     sys.exit(1)
 print("harness built:", exe)
 PY
+python3 refpaseto/selftest.py
